@@ -140,10 +140,24 @@ func vc05Scoped(name string) bool {
 func (u *vc05Upstream) ServeDNS(ctx context.Context, rw dnsserver.ResponseWriter, req *dns.Msg) (err error) {
 	e := vdns.ECSOpt(req)
 	var all []*dns.EDNS0_SUBNET
-	if opt := req.IsEdns0(); opt != nil {
+	for _, rr := range req.Extra {
+		opt, ok := rr.(*dns.OPT)
+		if !ok {
+			continue
+		}
+
 		for _, o := range opt.Option {
-			if sn, ok := o.(*dns.EDNS0_SUBNET); ok {
+			if sn, isECS := o.(*dns.EDNS0_SUBNET); isECS {
 				all = append(all, sn)
+			}
+		}
+	}
+
+	// The option the upstream acts on first in the list.
+	if e != nil {
+		for i, sn := range all {
+			if sn == e {
+				all[0], all[i] = all[i], all[0]
 			}
 		}
 	}
@@ -370,6 +384,10 @@ type vc05Client struct {
 	Scope  uint8
 	// Second, if valid, is a second ECS option sent after the first.
 	Second netip.Prefix
+	// SecondInOwnOPT puts the first option into an OPT record of its own, so
+	// that the query carries two OPT records (RFC 6891 wants FORMERR for that;
+	// whatever the server does, nothing of either option may reach upstream).
+	SecondInOwnOPT bool
 }
 
 func (c vc05Client) String() string {
@@ -435,6 +453,7 @@ func vc05DrawClient(t *rapid.T) (c vc05Client) {
 				}
 
 				c.Second = netip.PrefixFrom(sa, sb).Masked()
+				c.SecondInOwnOPT = rapid.Bool().Draw(t, "twoOPTRecords")
 			}
 		} else {
 			// Put one stray host bit inside the last octet that goes on the wire
@@ -539,7 +558,15 @@ func vc05BuildReq(t *rapid.T, name string, qt uint16, do bool, c vc05Client) (re
 		opt.Option = append(opt.Option, &dns.EDNS0_LOCAL{Code: dns.EDNS0SUBNET, Data: vc05RawECS(c)})
 		if c.Second.IsValid() {
 			c2 := vc05Client{Mode: vc05Valid, Subnet: c.Second}
-			opt.Option = append(opt.Option, &dns.EDNS0_LOCAL{Code: dns.EDNS0SUBNET, Data: vc05RawECS(c2)})
+			second := &dns.EDNS0_LOCAL{Code: dns.EDNS0SUBNET, Data: vc05RawECS(c2)}
+			if c.SecondInOwnOPT {
+				opt2 := &dns.OPT{Hdr: dns.RR_Header{Name: ".", Rrtype: dns.TypeOPT}}
+				opt2.SetUDPSize(1232)
+				opt2.Option = []dns.EDNS0{second}
+				req.Extra = append(req.Extra, opt2)
+			} else {
+				opt.Option = append(opt.Option, second)
+			}
 		}
 	}
 
@@ -691,8 +718,13 @@ func vc05RunHistories(tt *testing.T, st *vstat.Stats, env *vc05Env) {
 			// is "malformed" (FORMERR) or an opt-out; both treatments are accepted.
 			fam0Rejected := c.Mode == vc05DeclinedFam0 && resp.Rcode == dns.RcodeFormatError && nUp == 0
 
+			// Two OPT records are a format error by RFC 6891; the statement does
+			// not say whether the server must reject them, so both treatments
+			// are accepted, but a rejection sends nothing upstream.
+			twoOPTRejected := c.SecondInOwnOPT && resp.Rcode == dns.RcodeFormatError
+
 			// P5: malformed => FORMERR and nothing upstream.
-			if c.Mode == vc05BadHostBits || c.Mode == vc05BadFamily0 || fam0Rejected {
+			if c.Mode == vc05BadHostBits || c.Mode == vc05BadFamily0 || fam0Rejected || twoOPTRejected {
 				if resp.Rcode != dns.RcodeFormatError || nUp != 0 {
 					t.Fatalf("history %v: malformed ECS %s: rcode %d, upstream calls %d; want FORMERR and none", hist, c, resp.Rcode, nUp)
 				}
@@ -718,6 +750,11 @@ func vc05RunHistories(tt *testing.T, st *vstat.Stats, env *vc05Env) {
 				addrs := []netip.Addr{c.Remote}
 				if c.Mode == vc05Valid {
 					addrs = append(addrs, c.Subnet.Addr())
+					if c.SecondInOwnOPT {
+						// Two OPT records: whichever the server takes as the
+						// client's option.
+						addrs = append(addrs, c.Second.Addr())
+					}
 				}
 
 				if env.sameBlock != nil {
@@ -828,6 +865,11 @@ func vc05RunHistories(tt *testing.T, st *vstat.Stats, env *vc05Env) {
 				}
 
 				got := vdns.ECSPrefix(re)
+				if c.SecondInOwnOPT && got == c.Second.String() {
+					// Two OPT records: the server took the second record's
+					// option as the client's.
+					want = c.Second
+				}
 				if got != want.String() {
 					t.Fatalf("history %v: response ECS %s, want the client's own %s", hist, got, want)
 				}
@@ -864,6 +906,9 @@ func vc05RunHistories(tt *testing.T, st *vstat.Stats, env *vc05Env) {
 				classes = append(classes, "valid-ecs")
 				if c.Second.IsValid() {
 					classes = append(classes, "two-ecs-options")
+					if c.SecondInOwnOPT {
+						classes = append(classes, "two-opt-records")
+					}
 				}
 			}
 
